@@ -26,6 +26,8 @@ context only when no instance runs and no result is in flight, with the regenera
 -/
 import Pandora.Proofs.C12
 import Pandora.Proofs.C12Pool
+import Pandora.Proofs.C12Engine
+import Pandora.Proofs.C12Fine
 import Pandora.Proofs.C12Shape
 import Pandora.Bridge.C12Startup
 import Pandora.Bridge.Waiter
@@ -327,6 +329,103 @@ theorem C12_engine_returns_only_when_all_pools_done (nPools : Int) (h0 : 0 ≤ n
   have := engSeq_spec nPools evs 0 k r h0 h
   simpa using this
 
+/-! ### the statement layer: a pass of `instance.Run` is three separately interleaved statements (round 3) -/
+
+/-- The granularity assumption of the pool layer ("one pass of `instance.Run` is one event") is sound: when the loop head,
+`Acquire` and `Wait` of every instance are SEPARATE events, interleaved in any way with each other, with the start loop,
+the await loop and cancellations, the pool state reached is one the pool layer reaches with atomic passes (each statement
+being the atomic pass that saw what this statement saw — the pool layer allows the stale readings) — hence it is a run of
+the abstract system too, and every theorem above holds at statement granularity. -/
+theorem C12_statement_interleaving_adds_nothing (c : Cfg) (all : List Int) (fevs : List FEvent) :
+    (∃ pevs, pevs.length ≤ fevs.length ∧ (fineRun c (FSt.init all) fevs).p = poolRun c (PSt.init all) pevs) ∧
+      ∃ evs, (fineRun c (FSt.init all) fevs).p.base = run c (St.init all) evs := by
+  obtain ⟨pevs, hl, hp⟩ := fineRun_refines c (FSt.init all) fevs
+  refine ⟨⟨pevs, hl, hp⟩, ?_⟩
+  rw [hp]
+  exact C12_pool_refines c all pevs
+
+/-- …and nothing is lost: the three statements of a pass of a running instance at its loop head, executed back to back with
+the readings of a pool-layer pass the state allows, do exactly what that atomic pass does (so the two layers reach the same
+pool states); the statements are those of the REGENERATED `instance.Run`: each ends the instance as the regenerated loop
+does on what it saw. -/
+theorem C12_pass_is_three_statements (c : Cfg) (f : FSt) (id : Nat) (it : RunIter) (e ne : Bool)
+    (hid : f.p.base.running.contains id = true) (hpc : f.pc id = .head)
+    (hm : iterMatches f.p.base it e ne = true) :
+    (fineRun c f (passEvents id it e ne)).p = poolStep c f.p (.iter id it e ne) ∧
+      (∀ cd left e', iterOutcome (headPass cd left) e' = exitReasonOf (Gen.Startup.instanceRun [headPass cd left]) e') ∧
+      iterOutcome acquirePass false = exitReasonOf (Gen.Startup.instanceRun [acquirePass]) false ∧
+      iterOutcome waitPass false = exitReasonOf (Gen.Startup.instanceRun [waitPass]) false :=
+  ⟨pass_back_to_back c f id it e ne hid hpc hm, fun _ _ _ => C12_exit_reason_is_source.1 _ _,
+    C12_exit_reason_is_source.1 _ _, C12_exit_reason_is_source.1 _ _⟩
+
+/-! ### the engine layer: n pools and the await loop of `Engine.Run` as ONE transition system (round 3) -/
+
+/-- Inside an engine of `n` pools, for ALL interleavings of the events of all pools, of the caller's cancel, of pools
+returning and of the engine's await loop: every pool stays a reachable state of the single-pool layer — so every per-pool
+theorem above (ids from 0 per pool, not ahead of ITS profile, never reduced, all tokens unless …) holds for every pool of
+an engine (`C12_pool_inherits`) —, and the state of the engine's await loop is what the REGENERATED loop of `Engine.Run`
+computes from what it has received. -/
+theorem C12_engine_pools_are_pools (c : Nat → Cfg) (toks : Nat → List Int) (n : Nat) (evs : List EEvent) :
+    let e := erun c (ESt.init n toks) evs
+    (∀ j, ∃ pevs, (e.pool j).p = poolRun (c j) (PSt.init (toks j)) pevs) ∧
+      e.eng = Gen.Startup.engineRun (n : Int) 0 e.recvd := by
+  have h := erun_inv c toks _ evs (EInv.init c toks n)
+  refine ⟨h.reach, ?_⟩
+  rw [Bridge.C12Startup.engineRun_eq, h.src, erun_n]
+  rfl
+
+/-- …and the run of a pool is cancelled ONLY for a cause: in every reachable state of the engine, if the run context of pool
+`j` is done then the caller has cancelled, or some pool has FAILED (reported an error: an instance could not be created, a
+gun panicked), or EVERY pool — `j` included — had returned without error, which a pool does only after all its instances
+have finished and all their results were awaited.  So a pool that runs out of ammo, whose RPS profile ends, or that finishes
+altogether never stops an instance of another pool (the engine-level form of "the number of running instances is never
+reduced …", formerly only exercised by the 2–3-pool correspondence runs). -/
+theorem C12_engine_cancels_pool_only_for_cause (c : Nat → Cfg) (toks : Nat → List Int) (n : Nat) (evs : List EEvent)
+    (j : Nat) (hj : j < n) :
+    let e := erun c (ESt.init n toks) evs
+    (e.pool j).p.base.runCtxDone = true →
+      e.callerCancelled = true ∨ (∃ k, k < n ∧ (e.pool k).failed = true) ∨
+        (∀ k, k < n → (e.pool k).ret = some true ∧ (e.pool k).p.poolCancelled = true ∧
+          (e.pool k).p.base.running = [] ∧ (e.pool k).p.pending = []) := by
+  intro e hrun
+  have h := erun_inv c toks _ evs (EInv.init c toks n)
+  have hn : e.n = n := erun_n c _ evs
+  have pinv : ∀ k, PInv (c k) (toks k) (e.pool k).p := by
+    intro k
+    obtain ⟨pevs, hp⟩ := h.reach k
+    rw [hp]
+    exact poolRun_inv (c k) (toks k) _ pevs (PInv.init (c k) (toks k))
+  have hs : (e.pool j).p.base.sawRunCancelled = true := (pinv j).inv.runCtx.mp hrun
+  rcases cancel_cause c toks e h j (by omega) hs with hc | ⟨k, hk, hf⟩ | hall
+  · exact Or.inl hc
+  · exact Or.inr (Or.inl ⟨k, by omega, hf⟩)
+  · refine Or.inr (Or.inr fun k hk => ?_)
+    obtain ⟨hr, hpc⟩ := hall k (by omega)
+    obtain ⟨h1, h2, _⟩ := (pinv k).cancelled hpc
+    exact ⟨hr, hpc, h1, h2⟩
+
+/-- How a pool FAILS and how its `Run` returns is the source (regenerated): besides a run result that is a real error and a start
+result with a creation error (`C12_pool_await_is_source`), only a result of `Provider.Run` / `Aggregator.Run` that is a real
+error is reported — a provider or aggregator that merely returns stops nothing (`recvOther` of the pool layer) —; a reported
+error is sent to the pool's `Run` unless the pool context is already done; `Run` returns nil only when the await loop has
+closed its channel (everything awaited: the `poolReturn … true` rule of the engine layer needs `poolCancelled`), the reported
+error when one was sent, `ctx.Err()` when its context is done; returning cancels the pool context, which is the parent of the
+run context (hence "a reported error is the abstract run cancel"), and `Engine.Run` returning cancels every pool. -/
+theorem C12_pool_failure_is_source :
+    (∀ ce, Gen.Startup.onProviderResult ce = onOtherResult ce ∧ Gen.Startup.onAggregatorResult ce = onOtherResult ce) ∧
+    (∀ ce, ce Ctx.run = true → onOtherResult ce = []) ∧
+    Gen.Startup.poolRunSelect .ctxDone = .ctxErr ∧
+    (∀ ok, Gen.Startup.poolRunSelect (.awaitErr ok) = if ok then .reported else .nil) ∧
+    Gen.Startup.poolRunCancelsOnReturn = true ∧ Gen.Startup.runCtxIsChildOfPoolCtx = true ∧
+    Gen.Startup.engineReturnCancelsPools = true ∧
+    (∀ x, x ∈ Gen.Startup.onErrAwaitedCases ↔ (x = ErrCase.send ∨ x = ErrCase.poolCtxDone)) ∧
+    (∀ (c : Cfg) (p : PSt), (poolStep c p (.recvOther true)).base = p.base) := by
+  refine ⟨Bridge.C12Startup.onOtherResult_eq, ?_, Bridge.C12Startup.poolRunSelect_eq.1,
+    Bridge.C12Startup.poolRunSelect_eq.2, Bridge.C12Startup.returnCancels_eq.1, Bridge.C12Startup.returnCancels_eq.2.1,
+    Bridge.C12Startup.returnCancels_eq.2.2, Bridge.C12Startup.onErrAwaitedCases_eq, fun _ _ => rfl⟩
+  intro ce h
+  simp [onOtherResult, h]
+
 /-! ### the profiles -/
 
 /-- `instance_step`: the REGENERATED `NewInstanceStep(from, to, step, d)`, started at 0, emits `from` tokens at 0 and then
@@ -499,6 +598,56 @@ example : Gen.Startup.engineRun 2 0 [.result true] = { awaited := 1, ret := none
     Gen.Startup.engineRun 2 0 [.result true, .result true] = { awaited := 2, ret := some .ok } ∧
     Gen.Startup.engineRun 2 0 [.result true, .result false] = { awaited := 1, ret := some .failed } ∧
     Gen.Startup.engineRun 2 0 [.ctxDone] = { awaited := 0, ret := some .cancelled } := by decide
+/-- the statement layer: instance 0 passes its loop head and gets ammo, THEN the caller cancels the run; its `Wait` sees the
+done context, the next loop head ends the instance as "cancelled" — an interleaving inside a pass -/
+def demoFine : List FEvent :=
+  [ .pool (.loop (.wait { tok := some 0, pick := 10, now := 20, arm := 20, ret := 30 } true 5)),
+    .head 0 false 7 false, .acquire 0 true, .pool (.loop .runCancel), .waitNext 0 true false, .head 0 true 7 true ]
+example : (fineRun {} (FSt.init demoToks) (demoFine.take 5)).p.base.running = [0] ∧
+    (fineRun {} (FSt.init demoToks) (demoFine.take 5)).pc 0 = .head ∧
+    (fineRun {} (FSt.init demoToks) demoFine).p.base.running = [] ∧
+    (fineRun {} (FSt.init demoToks) demoFine).p.pending = [(0, .exit .cancelled)] := by decide
+/-- hypotheses of `C12_pass_is_three_statements`: a running instance at its loop head, a pass that finds the shared schedule
+drained inside `Wait` -/
+example : (fineRun {} (FSt.init demoToks) (demoFine.take 1)).p.base.running.contains 0 = true ∧
+    (fineRun {} (FSt.init demoToks) (demoFine.take 1)).pc 0 = .head ∧
+    iterMatches (fineRun {} (FSt.init demoToks) (demoFine.take 1)).p.base { waitOk := false } false true = true := by decide
+
+/-- the engine layer, two pools with the demo profile: pool 0 runs out of ammo, finishes altogether, returns and is awaited
+by the engine — pool 1, whose first instance is running, is not touched; when pool 1 has finished too the engine returns
+(and only then the run contexts are cancelled) -/
+def demoEngine : List EEvent :=
+  demoPool.map (.pool 0) ++ [.poolReturn 0 true, .engineRecv 0] ++ (demoPool.take 2).map (.pool 1)
+example : ((erun (fun _ => {}) (ESt.init 2 (fun _ => demoToks)) demoEngine).pool 0).ret = some true ∧
+    (erun (fun _ => {}) (ESt.init 2 (fun _ => demoToks)) demoEngine).eng = { awaited := 1, ret := none } ∧
+    ((erun (fun _ => {}) (ESt.init 2 (fun _ => demoToks)) demoEngine).pool 1).p.base.running = [0] ∧
+    ((erun (fun _ => {}) (ESt.init 2 (fun _ => demoToks)) demoEngine).pool 1).p.base.runCtxDone = false := by decide
+example : (erun (fun _ => {}) (ESt.init 2 (fun _ => demoToks))
+      (demoEngine ++ (demoPool.drop 2).map (.pool 1) ++ [.poolReturn 1 true, .engineRecv 1])).eng =
+        { awaited := 2, ret := some .ok } ∧
+    ((erun (fun _ => {}) (ESt.init 2 (fun _ => demoToks))
+      (demoEngine ++ (demoPool.drop 2).map (.pool 1) ++ [.poolReturn 1 true, .engineRecv 1])).pool 1).p.base.runCtxDone = true := by
+  decide
+/-- …a pool that FAILS (its second instance cannot be created; the error result is received) returns an error: the engine
+returns "failed" and the run of the other pool is cancelled — hypotheses of `C12_engine_cancels_pool_only_for_cause` with
+the second cause -/
+def demoEngineFail : List EEvent :=
+  [ .pool 1 (.loop (.wait { tok := some 0, pick := 10, now := 20, arm := 20, ret := 30 } true 5)),
+    .pool 0 (.loop (.wait { tok := some 0, now := 1, arm := 1, ret := 1 } true 0)),
+    .pool 0 (.loop (.wait { tok := some 0, now := 2, arm := 2, ret := 2 } false 0)),
+    .pool 0 (.recvRun 0), .poolReturn 0 false, .engineRecv 0 ]
+example : ((erun (fun _ => {}) (ESt.init 2 (fun j => if j = 0 then [0, 0] else demoToks)) demoEngineFail).pool 0).failed = true ∧
+    (erun (fun _ => {}) (ESt.init 2 (fun j => if j = 0 then [0, 0] else demoToks)) demoEngineFail).eng =
+      { awaited := 0, ret := some .failed } ∧
+    ((erun (fun _ => {}) (ESt.init 2 (fun j => if j = 0 then [0, 0] else demoToks)) demoEngineFail).pool 1).p.base.runCtxDone = true ∧
+    ((erun (fun _ => {}) (ESt.init 2 (fun j => if j = 0 then [0, 0] else demoToks)) (demoEngineFail.take 4)).pool 1).p.base.runCtxDone = false := by
+  decide
+
+/-- the provider returns without error while an instance runs: nothing changes; the aggregator FAILS: the run is cancelled -/
+example : (poolRun {} (PSt.init demoToks) (demoPool.take 2 ++ [.recvOther true])).base.running = [0] ∧
+    (poolRun {} (PSt.init demoToks) (demoPool.take 2 ++ [.recvOther true])).base.runCtxDone = false ∧
+    (poolRun {} (PSt.init demoToks) (demoPool.take 2 ++ [.recvOther false])).base.runCtxDone = true := by decide
+
 /-- hypotheses of `C12_pool_await_is_source`: the regenerated condition on concrete counters -/
 example : Gen.Startup.allFinished { startFinished := true, started := 3, awaited := 3 } = true ∧
     Gen.Startup.allFinished { startFinished := true, started := 3, awaited := 2 } = false ∧
